@@ -151,3 +151,41 @@ Proof.
   unfold get_conn, set_conn in G'. cbn [conns] in G'.
   rewrite nth_error_upd_eq in G' by (eapply nth_error_lt; eauto). inv G'. cbn [cccd]. reflexivity.
 Qed.
+
+(* ------------------------------------------------------------------ per connection *)
+(* no request, notification or indication of one connection changes anything of another connection *)
+Theorem other_connections_untouched c st o cid :
+  (match o with OpIn i _ _ | OpOut i _ => i = cid | _ => False end) ->
+  forall j, j <> cid -> get_conn (fst (srv_step c st o)) j = get_conn st j.
+Proof.
+  intros Ho j N. destruct o as [i pdu n|i n|i e p|i|bu kd gci|gci|gci data]; try contradiction; subst i; cbn [srv_step].
+  - destruct (att_input c st cid pdu n) as [[st' r]|] eqn:E; cbn [fst]; auto.
+    eapply frame_other; eauto. eapply att_input_frame; eauto.
+  - destruct (att_output c st cid n) as [[st' r]|] eqn:E; cbn [fst]; auto.
+    eapply frame_other; eauto. eapply att_output_frame; eauto.
+Qed.
+
+(* attribute.access( write ) on the CCCD of a characteristic, in a reachable state: exact, local *)
+From BT Require Import AttDb.AttDbNotifProofs.
+
+Theorem cccd_access_write_exact c ops cid index s ch cci data st' :
+  let st := srv_after c (srv_init c) ops in
+  attribute_at c index = Some (ACccd s ch cci) ->
+  Forall (fun b => b < 256) data ->
+  access_write c st cid (ACccd s ch cci) 0 data = Some (st', Success) ->
+  exists k k', get_conn st cid = Some k /\ get_conn st' cid = Some k'
+    /\ (length data <= 2)%nat
+    /\ cccd_get (cccd k') (cccd_position c cci)
+       = match data with [] => cccd_get (cccd k) (cccd_position c cci) | b :: _ => N.land b 3 end
+    /\ (forall j, j < number_of_client_configs c -> j <> cccd_position c cci -> cccd_get (cccd k') j = cccd_get (cccd k) j)
+    /\ (forall j, j <> cid -> get_conn st' j = get_conn st j)
+    /\ vals st' = vals st.
+Proof.
+  intros st A F. unfold access_write. destruct (get_conn st cid) as [k|] eqn:G; [|discriminate].
+  destruct (security_check _ _ _); try (intros H; inv H; fail).
+  intros H. apply f_some_inj in H.
+  pose proof (store_ok_reachable c ops cid k G) as S.
+  destruct (cccd_attribute_position c index s ch cci A) as (P & _).
+  destruct (cccd_write_exact c st cid k cci data st' G S P F H) as (L & k' & G' & E1 & E2 & _ & _ & _ & _ & _ & O & V & _).
+  exists k, k'. repeat split; auto.
+Qed.
